@@ -1,3 +1,4 @@
+import Secp.Proofs.Equal
 import Secp.Proofs.LimbGroup
 /-!
 # C05 — Element equality and identity test are representation-independent
